@@ -1,4 +1,5 @@
 use alloc::collections::{btree_map, BTreeMap};
+use core::cmp::Ordering;
 use core::iter;
 use core::ops::Add;
 
@@ -144,23 +145,36 @@ impl Iter<'_> {
     pub fn advance_to(&mut self, n: u64) {
         let (key, index) = util::split(n);
 
-        self.outer.advance_to(key);
-
-        if self.front.is_none() {
-            let Some(next) = self.outer.next() else {
-                // if the current front iterator is empty or not yet initialized,
-                // but the outer bitmap iterator is empty, then consume the back
-                // iterator from the front if it is not also exhausted
-                if let Some(ref mut back) = self.back {
-                    back.advance_to(index);
-                }
-                return;
-            };
-            self.front = Some(to64iter(next));
+        if let Some(ref mut front) = self.front {
+            match front.hi.cmp(&key) {
+                // every remaining value is already >= n
+                Ordering::Greater => return,
+                Ordering::Equal => return front.advance_to(index),
+                // the whole front partition is < n
+                Ordering::Less => self.front = None,
+            }
         }
 
-        if let Some(ref mut front) = self.front {
-            front.advance_to(index);
+        match self.outer.advance_to(key) {
+            Some(first) if first == key => {
+                let mut front = self.outer.next().map(to64iter);
+                if let Some(ref mut front) = front {
+                    front.advance_to(index);
+                }
+                self.front = front;
+            }
+            // the next untouched partition is > key, there is nothing to trim in it
+            Some(_) => (),
+            // no untouched partition left, the back iterator is consumed from the front
+            None => {
+                if let Some(ref mut back) = self.back {
+                    match back.hi.cmp(&key) {
+                        Ordering::Greater => (),
+                        Ordering::Equal => back.advance_to(index),
+                        Ordering::Less => self.back = None,
+                    }
+                }
+            }
         }
     }
 
@@ -182,23 +196,36 @@ impl Iter<'_> {
     pub fn advance_back_to(&mut self, n: u64) {
         let (key, index) = util::split(n);
 
-        self.outer.advance_back_to(key);
-
-        if self.back.is_none() {
-            let Some(next_back) = self.outer.next_back() else {
-                // if the current back iterator is empty or not yet initialized,
-                // but the outer bitmap iterator is empty, then consume the front
-                // iterator from the back if it is not also exhausted
-                if let Some(ref mut front) = self.front {
-                    front.advance_back_to(index);
-                }
-                return;
-            };
-            self.back = Some(to64iter(next_back));
+        if let Some(ref mut back) = self.back {
+            match back.hi.cmp(&key) {
+                // every remaining value is already <= n
+                Ordering::Less => return,
+                Ordering::Equal => return back.advance_back_to(index),
+                // the whole back partition is > n
+                Ordering::Greater => self.back = None,
+            }
         }
 
-        if let Some(ref mut back) = self.back {
-            back.advance_back_to(index);
+        match self.outer.advance_back_to(key) {
+            Some(last) if last == key => {
+                let mut back = self.outer.next_back().map(to64iter);
+                if let Some(ref mut back) = back {
+                    back.advance_back_to(index);
+                }
+                self.back = back;
+            }
+            // the last untouched partition is < key, there is nothing to trim in it
+            Some(_) => (),
+            // no untouched partition left, the front iterator is consumed from the back
+            None => {
+                if let Some(ref mut front) = self.front {
+                    match front.hi.cmp(&key) {
+                        Ordering::Less => (),
+                        Ordering::Equal => front.advance_back_to(index),
+                        Ordering::Greater => self.front = None,
+                    }
+                }
+            }
         }
     }
 }
@@ -527,67 +554,38 @@ impl RoaringTreemap {
 pub struct BitmapIter<'a> {
     treemap: &'a BTreeMap<u32, RoaringBitmap>,
     range: btree_map::Range<'a, u32, RoaringBitmap>,
-    latest_front_idx: Option<u32>,
-    latest_back_idx: Option<u32>,
 }
 
 impl<'a> BitmapIter<'a> {
     fn new(treemap: &'a BTreeMap<u32, RoaringBitmap>) -> Self {
         let range = treemap.range(..);
-        Self { treemap, range, latest_back_idx: None, latest_front_idx: None }
+        Self { treemap, range }
     }
 
-    fn advance_to(&mut self, new_front_idx: u32) {
-        match self.latest_back_idx {
-            Some(latest_back_idx) => match self.latest_front_idx {
-                Some(last_idx) if last_idx >= new_front_idx => {}
-                _ => {
-                    // if asked to advance to beyond the back iterator,
-                    // update the self.range iterator to be empty
-                    if new_front_idx >= latest_back_idx {
-                        self.range = self.treemap.range(0..1);
-                        self.range.next_back();
-                    } else {
-                        // otherwise shrink the remaining range from the front
-                        self.range = self.treemap.range(new_front_idx..latest_back_idx);
-                    }
-
-                    // self.range = self.treemap.range(new_front_idx..latest_back_idx);
-                }
-            },
-            None => match self.latest_front_idx {
-                Some(latest_idx) if latest_idx >= new_front_idx => {}
-                _ => {
-                    self.range = self.treemap.range(new_front_idx..);
-                }
-            },
+    /// Drops the untouched partitions below `new_front_idx`.
+    /// Returns the index of the first untouched partition left, if any.
+    fn advance_to(&mut self, new_front_idx: u32) -> Option<u32> {
+        let (&first, _) = self.range.clone().next()?;
+        let (&last, _) = self.range.clone().next_back()?;
+        if new_front_idx > last {
+            self.range = self.treemap.range(last..last);
+        } else if new_front_idx > first {
+            self.range = self.treemap.range(new_front_idx..=last);
         }
+        self.range.clone().next().map(|(&idx, _)| idx)
     }
 
-    fn advance_back_to(&mut self, new_back_idx: u32) {
-        match self.latest_front_idx {
-            Some(latest_front_idx) => match self.latest_back_idx {
-                // do nothing if asked to advance back to a higher index than the back is already at
-                Some(latest_back_idx) if latest_back_idx <= new_back_idx => {}
-                _ => {
-                    // if asked to advance back to beyond the front iterator,
-                    // update the self.range iterator to be empty
-                    if new_back_idx <= latest_front_idx {
-                        self.range = self.treemap.range(0..1);
-                        self.range.next_back();
-                    } else {
-                        // otherwise shrink the remaining range from the back
-                        self.range = self.treemap.range((latest_front_idx + 1)..new_back_idx);
-                    }
-                }
-            },
-            None => match self.latest_back_idx {
-                Some(latest_back_idx) if latest_back_idx <= new_back_idx => {}
-                _ => {
-                    self.range = self.treemap.range(..=new_back_idx);
-                }
-            },
+    /// Drops the untouched partitions above `new_back_idx`.
+    /// Returns the index of the last untouched partition left, if any.
+    fn advance_back_to(&mut self, new_back_idx: u32) -> Option<u32> {
+        let (&first, _) = self.range.clone().next()?;
+        let (&last, _) = self.range.clone().next_back()?;
+        if new_back_idx < first {
+            self.range = self.treemap.range(first..first);
+        } else if new_back_idx < last {
+            self.range = self.treemap.range(first..=new_back_idx);
         }
+        self.range.clone().next_back().map(|(&idx, _)| idx)
     }
 
     fn remaining(&self) -> u64 {
@@ -600,16 +598,7 @@ impl<'a> Iterator for BitmapIter<'a> {
     type Item = (u32, &'a RoaringBitmap);
 
     fn next(&mut self) -> Option<Self::Item> {
-        match self.range.next().map(|(&p, b)| (p, b)) {
-            None => {
-                self.latest_front_idx = None;
-                None
-            }
-            Some((next_idx, next_map)) => {
-                self.latest_front_idx = Some(next_idx);
-                Some((next_idx, next_map))
-            }
-        }
+        self.range.next().map(|(&p, b)| (p, b))
     }
 
     fn size_hint(&self) -> (usize, Option<usize>) {
@@ -625,15 +614,6 @@ impl FromIterator<(u32, RoaringBitmap)> for RoaringTreemap {
 
 impl DoubleEndedIterator for BitmapIter<'_> {
     fn next_back(&mut self) -> Option<Self::Item> {
-        match self.range.next_back().map(|(&p, b)| (p, b)) {
-            None => {
-                self.latest_back_idx = None;
-                None
-            }
-            Some((next_back_idx, next_back_map)) => {
-                self.latest_back_idx = Some(next_back_idx);
-                Some((next_back_idx, next_back_map))
-            }
-        }
+        self.range.next_back().map(|(&p, b)| (p, b))
     }
 }
